@@ -43,9 +43,11 @@ def boundary_set(ks: tuple = KS) -> list[int]:
 
 
 B_CORE = boundary_set()
-# beyond the stated set: two magnitudes that overflow a double / need many digits
-B = B_CORE + [1 << 100, -(1 << 100), 1 << 1024, -(1 << 1024)]
 assert len(B_CORE) == 59
+# beyond the stated set: the double-precision boundary 2^53 (and neighbours), and two magnitudes that
+# need many digits / overflow a double
+BIG = [1 << 100, -(1 << 100), 1 << 1024, -(1 << 1024)]
+B = sorted(set(B_CORE) | set(boundary_set((53,))), key=_order) + BIG
 S = [0, 1, 2, 7, 8, 31, 32, 62, 63, 64, 65, -1]
 
 
@@ -66,7 +68,6 @@ def float_set() -> list[float]:
 
 
 F = float_set()
-BIG = [1 << 100, -(1 << 100), 1 << 1024, -(1 << 1024)]
 DOMAINS: dict[str, list] = {
     "B": B, "S": S, "F": F, "BOOL": [False, True],
     "U8ALL": list(range(256)),
@@ -172,6 +173,12 @@ def opclass(v: Any, typ: str) -> str:
 # --------------------------------------------------------------------------- the oracle
 
 
+# `x >> 64` on an i64 is 0 or -1 in Python (a result that fits the type), so the property statement
+# covers it; mypyc emits a plain C shift (count >= width is undefined in C).  Set to False to treat
+# fixed-width shifts by >= width as unjudged instead.
+JUDGE_SHIFT_COUNT_BEYOND_WIDTH = True
+
+
 def judge(spec: dict, args: tuple, ref: tuple, got: tuple) -> tuple[str, str | None]:
     """Transcription of the property statement.  Returns (status, kind):
 
@@ -186,6 +193,9 @@ def judge(spec: dict, args: tuple, ref: tuple, got: tuple) -> tuple[str, str | N
             lo, hi = RANGES[t]
             if not lo <= v <= hi:
                 return ("ok", None) if got[0] == "exc" else ("bad", "out-of-range-int-not-rejected")
+    if spec["count"] is not None and not JUDGE_SHIFT_COUNT_BEYOND_WIDTH:
+        if args[spec["count"]] >= WIDTH[next(x for x in spec["req"] if x)]:
+            return ("free", None)
     fixed_involved = any(t in RANGES for t in spec["ptypes"]) or spec["ret"] in RANGES or any(spec["req"])
     # 2. the reference raises
     if ref[0] == "exc":
